@@ -8,7 +8,8 @@ mod verif_native_dedup {
     fn dedup_is_set() {
         let alphabet = ["a", "b", "c"];
         let mut cases = 0u64;
-        for len in 0..=5usize {
+        let max_len = if std::env::var("VERIF_TIER").map(|v| v == "thorough").unwrap_or(false) { 7usize } else { 5 };
+        for len in 0..=max_len {
             let total = alphabet.len().pow(len as u32);
             for mut code in 0..total {
                 let mut v: Vec<String> = Vec::new();
